@@ -3643,7 +3643,7 @@ class ISLaEmitter(IslaLanguageListener.IslaLanguageListener):
 
     def exitConstDecl(self, ctx: IslaLanguageParser.ConstDeclContext):
         self.constant = Constant(
-            parse_tree_text(ctx.ID()), parse_tree_text(ctx.varType())
+            parse_tree_text(ctx.ID()), parse_tree_text(ctx.VAR_TYPE())
         )
 
     def enterQfdFormula(
